@@ -682,11 +682,196 @@ def shrink_smoke(case):
 
 
 # --------------------------------------------------------------------------------------
-RUNNERS = dict(weights=run_weights, kernel=run_kernel, evaltimes=run_evaltimes, config=run_config, smoke=run_smoke)
-SHRINKERS = dict(evaltimes=shrink_evaltimes, smoke=shrink_smoke)
-GENS = dict(weights=gen_weights, kernel=gen_kernel, evaltimes=gen_evaltimes, config=gen_config, smoke=gen_smoke)
-QUICK = dict(weights=800, kernel=250, evaltimes=900, config=300, smoke=30)
-THOROUGH = dict(weights=20000, kernel=6000, evaltimes=25000, config=8000, smoke=600)
+# kind: stateprep  (state-preparation errors: which atoms are dark in each run)
+# --------------------------------------------------------------------------------------
+class _RecordUniform:
+    """Records every `np.random.uniform(size=n)` draw made while active (the state-preparation draws)."""
+
+    def __init__(self, n):
+        self.n, self.draws = n, []
+
+    def __enter__(self):
+        self._orig = np.random.uniform
+        rec = self
+
+        def uniform(*a, **kw):
+            out = rec._orig(*a, **kw)
+            size = kw.get("size", a[2] if len(a) > 2 else None)
+            if size == rec.n or size == (rec.n,):
+                rec.draws.append(np.array(out, dtype=float))
+            return out
+
+        np.random.uniform = uniform
+        return self
+
+    def __exit__(self, *exc):
+        np.random.uniform = self._orig
+
+
+def _embed(psi_good: np.ndarray, bad: tuple, n: int) -> np.ndarray:
+    """State of all atoms: the badly prepared ones stay in |g> (second basis vector of [r, g])."""
+    good = [i for i in range(n) if not bad[i]]
+    full = np.zeros(2**n, dtype=complex)
+    for idx in range(2**n):
+        digits = [int(c) for c in np.binary_repr(idx, width=n)]
+        if any(digits[i] != 1 for i in range(n) if bad[i]):
+            continue
+        sub = int("".join(str(digits[i]) for i in good), 2) if good else 0
+        full[idx] = psi_good[sub]
+    return full
+
+
+def run_stateprep(drv, case) -> Outcome:
+    import collections
+
+    from pulser.backend.default_observables import StateResult
+    from pulser.noise_model import NoiseModel
+    from pulser_simulation import QutipBackendV2, QutipConfig, QutipEmulator, SimConfig
+
+    spec = case["seq"]
+    n = int(spec["n"])
+    eta = float(Fraction(case["eta"]))
+    runs = int(case["runs"])
+    extra_noise = case.get("extra_noise") or {}
+    out = Outcome(branch=f"n{n}-" + ("+".join(sorted(extra_noise)) or "prep-only"), nontrivial=0 < eta < 1)
+    coords = [(spec.get("spacing", 8.0) * i, 0.0) for i in range(n)]
+    with warnings.catch_warnings():
+        warnings.simplefilter("ignore")
+        seq = build_sequence(spec)
+        nm = NoiseModel(runs=runs, samples_per_run=int(case.get("samples_per_run", 5)), state_prep_error=eta,
+                        **extra_noise)
+        np.random.seed(int(case["npseed"]))
+        emu = QutipEmulator.from_sequence(seq, config=SimConfig.from_noise_model(nm))
+        qids = list(emu._hamiltonian._qid_index)
+        opts = {}
+        emu._validate_options(opts)
+        yielded = []            # (bad atoms loaded for the run, repetitions, final state)
+        with _RecordUniform(n) as rec:
+            for cr, reps in emu._noisy_runs(progress_bar=False, **opts):
+                bad = tuple(bool(emu._hamiltonian._bad_atoms[q]) for q in qids)
+                yielded.append((bad, int(reps), cr.states[-1].full().flatten()))
+        drawn = [tuple(bool(x) for x in (d < eta)) for d in rec.draws]
+        # model: draw -> string -> bad atoms (PulserModel/Measure.lean §3b)
+        for d in rec.draws[:8]:
+            bits = drv.ask(f"prep {rat(Fraction(eta))} {wfracs(d)}").split()[0]
+            out.evaluations += 1
+            if tuple(c == "1" for c in ("" if bits == "e" else bits)) != tuple(bool(x) for x in (d < eta)):
+                out.diverge(f"model drawBad/encode/decode disagrees with u < eta on {d}")
+        # ---- (a) per run, the bad atoms loaded are the configuration that was drawn ----
+        got = collections.Counter()
+        for bad, reps, _ in yielded:
+            got[bad] += reps
+        want = collections.Counter(drawn)
+        out.evaluations += 1
+        out.detail = dict(eta=eta, runs=runs, drawn={"".join("1" if b else "0" for b in k): v for k, v in want.items()},
+                          loaded={"".join("1" if b else "0" for b in k): v for k, v in got.items()})
+        if len(drawn) != runs:
+            out.warnings.append(f"recorded {len(drawn)} state-preparation draws for {runs} runs (adapter lost track)")
+            return out
+        if got != want:
+            what = "all-atoms-bad" if all(all(b) for b in got) and not all(all(b) for b in want) else "other"
+            out.fail("state-prep-bad-atoms",
+                     f"eta={eta}: configurations drawn {out.detail['drawn']} but the runs were made with bad atoms "
+                     f"{out.detail['loaded']}", what=what)
+            return out
+        if extra_noise:
+            return out
+        # ---- (b) each run evolves the well-prepared atoms only; the others stay in |g> ----
+        ref = {}
+
+        def reference(bad):
+            if bad not in ref:
+                good = [i for i in range(n) if not bad[i]]
+                if not good:
+                    psi = np.ones(1, dtype=complex)
+                else:
+                    sub = dict(spec, n=len(good), coords=[list(coords[i]) for i in good])
+                    e2 = QutipEmulator.from_sequence(build_sequence(sub))
+                    psi = e2.run().states[-1].full().flatten()
+                ref[bad] = _embed(psi, bad, n)
+            return ref[bad]
+
+        for bad, reps, psi in yielded:
+            out.evaluations += 1
+            r = reference(bad)
+            if np.max(np.abs(psi - r)) > 2e-4:      # integrator tolerance; a wrong dark set is O(0.1)
+                out.fail("state-prep-dark-atoms",
+                         f"run with bad atoms {bad}: final state differs from 'bad atoms idle in |g>' by "
+                         f"{np.max(np.abs(psi - r)):.3g}")
+                return out
+        # ---- (c) the averaged results are the mixture over the drawn configurations ----
+        np.random.seed(int(case["npseed"]) + 1)
+        backend = QutipBackendV2(seq, config=QutipConfig(observables=[StateResult()], noise_model=nm))
+        with _RecordUniform(n) as rec2:
+            res = backend.run()
+        out.evaluations += 1
+        if len(rec2.draws) == runs:
+            mix = np.zeros((2**n, 2**n), dtype=complex)
+            for d in rec2.draws:
+                v = reference(tuple(bool(x) for x in (d < eta)))
+                mix += np.outer(v, v.conj()) / runs
+            dm = res.state[-1].to_qobj().full()
+            if np.max(np.abs(dm - mix)) > 2e-4:
+                out.fail("state-prep-mixture",
+                         f"V2 density matrix differs from the mixture over the drawn configurations by "
+                         f"{np.max(np.abs(dm - mix)):.3g} (diag {np.round(np.real(np.diag(dm)), 4)} vs "
+                         f"{np.round(np.real(np.diag(mix)), 4)})")
+        else:
+            out.warnings.append(f"V2: recorded {len(rec2.draws)} draws for {runs} runs")
+        np.random.seed(int(case["npseed"]) + 2)
+        emu3 = QutipEmulator.from_sequence(seq, config=SimConfig.from_noise_model(nm))
+        with _RecordUniform(n) as rec3:
+            noisy = emu3.run()
+        out.evaluations += 1
+        if len(rec3.draws) == runs and hasattr(noisy[-1], "bitstring_counts"):
+            dist = collections.Counter()
+            for d in rec3.draws:
+                v = reference(tuple(bool(x) for x in (d < eta)))
+                for idx, p in enumerate(np.abs(v) ** 2):
+                    if p > 1e-12:
+                        # r (first basis vector) reads 1
+                        dist["".join("1" if c == "0" else "0" for c in np.binary_repr(idx, width=n))] += p / runs
+            counts = dict(noisy[-1].bitstring_counts)
+            shots = sum(counts.values())
+            if shots != runs * nm.samples_per_run:
+                out.fail("sampling", f"legacy run returned {shots} shots for {runs} x {nm.samples_per_run}")
+            impossible = [k for k in counts if dist.get(k, 0.0) == 0.0]
+            if impossible:
+                out.fail("state-prep-mixture", f"legacy run sampled {impossible}, impossible under {dict(dist)}")
+            for w in mc.six_sigma_miss(counts, dist, shots):
+                out.warnings.append(f"legacy noisy run outside 6 sigma: {w}")
+    return out
+
+
+def gen_stateprep(rng) -> dict:
+    n = rng.choice([1, 2, 2, 3])
+    amp = rng.choice([3.141592653589793 / 0.1, 10.0, 6.283185307179586])
+    segs = [dict(ch="ryd", dur=rng.choice([100, 120]), amp=amp, det=rng.choice([0.0, 0.0, 3.0]), phase=0.0)]
+    case = dict(kind="stateprep", seq=dict(n=n, spacing=rng.choice([7.0, 30.0]), segments=segs),
+                eta=rng.choice(["1/10", "3/10", "1/2", "9/10", "1"]), runs=rng.choice([4, 8, 16]),
+                samples_per_run=rng.choice([5, 25]), npseed=rng.randint(0, 10**6))
+    if rng.random() < 0.2:
+        case["extra_noise"] = rng.choice([dict(temperature=50.0), dict(amp_sigma=0.1, laser_waist=100.0)])
+    return case
+
+
+def shrink_stateprep(case):
+    if case["seq"]["n"] > 1:
+        yield dict(case, seq=dict(case["seq"], n=case["seq"]["n"] - 1))
+    if case["runs"] > 2:
+        yield dict(case, runs=case["runs"] // 2)
+    if case.get("extra_noise"):
+        yield dict(case, extra_noise=None)
+
+
+# --------------------------------------------------------------------------------------
+RUNNERS = dict(weights=run_weights, kernel=run_kernel, evaltimes=run_evaltimes, config=run_config,
+               stateprep=run_stateprep, smoke=run_smoke)
+SHRINKERS = dict(evaltimes=shrink_evaltimes, smoke=shrink_smoke, stateprep=shrink_stateprep)
+GENS = dict(weights=gen_weights, kernel=gen_kernel, evaltimes=gen_evaltimes, config=gen_config,
+            stateprep=gen_stateprep, smoke=gen_smoke)
+QUICK = dict(weights=800, kernel=250, evaltimes=900, config=300, stateprep=25, smoke=30)
+THOROUGH = dict(weights=20000, kernel=6000, evaltimes=25000, config=8000, stateprep=400, smoke=600)
 
 
 def runner(drv, case) -> Outcome:
